@@ -39,8 +39,9 @@ int main(void)
   VF_ASSERT(d != 0, "C01: the factory returns a message");
   /* the factory's result is "the message it instantiated, unless it threw" - a conditional pointer for the symbolic executor although the
      exception paths were just shown infeasible: continue with the instantiated object itself (checked: it is the returned one) */
-  VF_ASSERT(d == (MSG*)l3_last_msg, "C01: the factory returns the message it instantiated");
-  __CPROVER_assume(d == (MSG*)l3_last_msg); d = (MSG*)l3_last_msg;
+  L3_LEMMA(d != 0 && d == (MSG*)l3_last_msg, "L3 lemma: the factory returns the message it instantiated");
+  d = (MSG*)l3_last_msg;
+  if (d != 0) {      /* (a null result has failed the check above; the reachability twin must not run the observers on it) */
   VF_ASSERT(l3_component_is(vf_header(d), 0, 3), "C01: the decoded header holds the same fields and values, in order");
   VF_ASSERT(l3_component_is((MB*)d, 1, 0), "C01: the decoded body holds the same fields and values, in order");
   VF_ASSERT(vf_pos_count(vf_trailer(d)) == 1, "C01: the decoded trailer holds the checksum field only");
@@ -58,6 +59,7 @@ int main(void)
   VF_ASSERT(n2 == n1, "C01: the re-encoding has the same length");
   int same = (n2 == n1); for (uint32_t i = 0; i < L3_CAP; i++) if (i < n1 && e2[i] != e1[i]) same = 0;
   VF_ASSERT(same, "C01: the re-encoding is byte-identical");
+  }
 #endif
   VF_REACH();
   return 0;
